@@ -122,7 +122,8 @@ def make_reject(g, draw):
         # says about them - a few ARE codes, `\d` admits every decimal digit - normalisation must agree with it
         return {'s': codegen.lookalikes(g.generate(draw), draw), 'lookalike': True}
     if k == 0:
-        junk = ['', ' ', 'DNF', '100m', 'HJ1', '4x', 'x100', 'SP7.26', '1.5K5', 'MILES', 'sst', 'SWT 7', 'DT1.5', '60h84', '--']
+        junk = ['', ' ', 'DNF', '100m', 'HJ1', '4x', 'x100', 'SP7.26', '1.5K5', 'MILES', 'sst', 'SWT 7', 'DT1.5', '60h84', '--',
+                '100%', '%s', '%d', '%(c)s', '{0}', '{}', '4%20x%20100', 'DT%sK', '100\\', "HJ'", '\x00']
         return {'s': junk[draw(len(junk))]}
     s = g.generate(draw)
     s = codegen.near_misses(s, draw)
